@@ -96,7 +96,9 @@ pub fn write(path: &Path, text: &str) {
 
 /// Headers of the repository test-suite with their `// bindgen-flags:` lines.
 pub fn repo_headers() -> Vec<(PathBuf, Vec<String>)> {
-    let dir = Path::new("/repo/bindgen-tests/tests/headers");
+    let repo = std::env::var("VERIF_REPO").unwrap_or_else(|_| "/repo".into());
+    let dir_buf = Path::new(&repo).join("bindgen-tests/tests/headers");
+    let dir = dir_buf.as_path();
     let mut v = vec![];
     let mut names: Vec<_> = std::fs::read_dir(dir).map(|d| d.filter_map(|e| e.ok()).map(|e| e.path()).collect()).unwrap_or_default();
     names.sort();
